@@ -50,6 +50,8 @@ def gen_direct(rng):
             "density": rng.choice([0.05, 0.3, 0.75, 0.85, 1.0]),
             "nodeSpacing": rng.choice([0, 1, 3, 7.5]),
             "stubWidth": rng.choice([0, 1, 4])}
+    if rng.random() < 0.1:
+        labels[rng.randrange(n)]["w"] = 0  # an explicit width of 0 is a width
     if rng.random() < 0.15 and n >= 3 and opts["layerWidth"]:
         labels[rng.randrange(n)]["w"] = float(opts["layerWidth"]) + 10
     if rng.random() < 0.2 and opts["layerWidth"]:
